@@ -70,12 +70,47 @@ def run(ctx):
         disc = r2(ctx, ty, m)
         seed_order(ctx, ty, m['new'], disc)
         helpers.check_traversal_new(ctx, 'C13.R5', ty, site='%s::new#bounds' % ty)
+        next_bounds(ctx, ty, m['next'])
         r4(ctx, ty, m, disc)
         r5_skip(ctx, ty, m)
     r5_wrappers(ctx)
     r6(ctx)
     r7(ctx)
     r9(ctx)
+
+
+def next_bounds(ctx, ty, b):
+    """Every returned item takes one off both size bounds, and never below zero: a traversal started below the root has lower bound 0
+    from the start, so the decrement has to saturate (or be guarded) -- a wrapped bound no longer brackets anything."""
+    R = Resolver(b)
+    SELF = ('param', 'self')
+    for fld in ('size_lb', 'size_ub'):
+        site = '%s::next#%s' % (ty, fld)
+        ws = [w for w in assigns(b, R) if w.target == ('field', SELF, fld)]
+        if not ws:
+            ctx.bad('C13.R5', site, 'next() does not update %s for the item it returns' % fld, b.span)
+            continue
+        problems = []
+        for w in ws:
+            v = s(w.value)
+            cur = ('field', SELF, fld)
+            if is_call(v, 'usize::saturating_sub') and len(v[2]) == 2 and s(v[2][0]) == cur and v[2][1] == ('const', 1):
+                continue
+            # `if x > 0 { x - 1 }` / `x - min(x, 1)`
+            guarded = False
+            if v[0] in ('bin', 'field'):
+                e = v[1] if v[0] == 'field' else v
+                if e[0] == 'bin' and e[1] in ('Sub', 'SubWithOverflow') and s(e[2]) == cur and e[3] == ('const', 1):
+                    for op, x, y in prune.cmp_facts(literals(b, R, w.bb)):
+                        x, y = s(x), s(y)
+                        if (op == 'Gt' and x == cur and y == ('const', 0)) or (op == 'Ge' and x == cur and y == ('const', 1)) or (op == 'Ne' and x == cur and y == ('const', 0)):
+                            guarded = True
+            if not guarded:
+                problems.append('%s := %s' % (fld, fmt(v)[:80]))
+        if problems:
+            ctx.bad('C13.R5', site, 'the bound is not decreased by one with saturation at zero: %s' % '; '.join(problems), b.where(ws[0].bb))
+        else:
+            ctx.ok('C13.R5', site, '%s := %s - 1, saturating at 0, for every returned item' % (fld, fld), b.where(ws[0].bb))
 
 
 def seed_order(ctx, ty, b, disc):
